@@ -104,6 +104,31 @@ def h_ctor_node(ctx, txshapes, which):
         ctx.check(ctx.not_(declared == root), 'constructor: refused only on mismatch')
 
 
+def h_ctor_mut(ctx, txshapes, which):
+    """history: a block built from MUTABLE transaction objects that the caller edits afterwards: the block's stored root, its
+    tree and its weight still describe block.vtx"""
+    C = ctx.core
+    hf, tfs, _ = _mk_block(ctx, txshapes, None)
+    txs = [K.build_tx(ctx, f, True) for f in tfs]
+    zero = ctx.B(bytes(32))
+    blk = C.CBlock(hf['nVersion'], hf['hashPrevBlock'], zero, hf['nTime'], hf['nBits'], hf['nNonce'], txs)
+    stored = blk.hashMerkleRoot
+    w0 = blk.GetWeight()
+    # the caller goes on editing its own objects
+    txs[which].nLockTime = ctx.int('edit_locktime', 0, 0xffffffff)
+    if len(txs[which].vout) > 0:
+        txs[which].vout[0].nValue = ctx.int('edit_value', 0, 1000)
+    txs[which].vin[0].nSequence = ctx.int('edit_seq', 0, 0xffffffff)
+    ctx.check(blk.hashMerkleRoot == stored, 'merkle root == reference', detail='stored root stable')
+    now = M.merkle_root(ctx, [t.GetTxid() for t in blk.vtx])
+    ctx.check(blk.hashMerkleRoot == now, 'merkle root == reference', detail='stored root == root over block.vtx after the caller edited its transactions')
+    ctx.check(blk.calc_merkle_root() == blk.hashMerkleRoot, 'merkle root == reference', detail='calc_merkle_root == stored root after the edit')
+    ctx.check(blk.GetWeight() == w0, 'block weight == 3*stripped + full', detail='weight stable after the caller edited its transactions')
+    hf2 = dict(hf)
+    hf2['hashMerkleRoot'] = stored
+    ctx.check(blk.serialize() == W.block(ctx, hf2, tfs), 'merkle root == reference', detail='block serialisation is that of the original transactions')
+
+
 def h_deser_block(ctx, txshapes):
     """a block arriving from the wire: roots of the deserialised object"""
     C = ctx.core
@@ -116,7 +141,7 @@ def h_deser_block(ctx, txshapes):
     ctx.check(blk.GetWeight() == 3 * len(W.block(ctx, hf, tfs, False)) + len(raw), 'block weight == 3*stripped + full')
 
 
-HARNESSES = {'ctor_node': h_ctor_node, 'txids': h_txids, 'txids_dup': h_txids_dup, 'block': h_block, 'deser_block': h_deser_block}
+HARNESSES = {'ctor_mut': h_ctor_mut, 'ctor_node': h_ctor_node, 'txids': h_txids, 'txids_dup': h_txids_dup, 'block': h_block, 'deser_block': h_deser_block}
 
 
 def instances(tier):
@@ -137,6 +162,8 @@ def instances(tier):
         shapes += [[t_a, t_b, t_w, t_w2], [t_w2] * 5, [t_a] * 7]
     for sh, which in (([t_a, t_a], 0), ([t_a, t_b], 1), ([t_a, t_a, t_a], 3), ([t_a, t_b, t_a], 2), ([t_a, t_a, t_a], 4)):
         out.append(dict(h='ctor_node', p=dict(txshapes=sh, which=which)))
+    for sh, which in (([t_a], 0), ([t_a, t_b], 1), ([t_w, t_a], 0), ([t_a, t_a, t_w2], 2)):
+        out.append(dict(h='ctor_mut', p=dict(txshapes=sh, which=which)))
     for sh in shapes:
         out.append(dict(h='block', p=dict(txshapes=sh)))
         out.append(dict(h='deser_block', p=dict(txshapes=sh)))
